@@ -139,7 +139,23 @@ def overlay(ctx):
 def index_form(ctx, f, g, facts, lp, kd, st, inst, con):
   """The equivalent index form  `for i in range(LO, HI): key = '/'.join(SC[:i])`.
   Returns False if the loop is not of this form."""
-  if not (isinstance(lp.target, ast.Name) and isinstance(lp.iter, ast.Call) and u(lp.iter.func) == 'range' and kd):
+  per_mode = None
+  if isinstance(lp.target, ast.Name) and isinstance(lp.iter, ast.Name) and kd:
+    # the iterable is a name bound per mode: `lengths = range(..)` when inheriting, `[len(SC)]` in strict mode
+    per_mode = {}
+    for a_ in walk_local(f.node):
+      if isinstance(a_, ast.Assign) and len(a_.targets) == 1 and u(a_.targets[0]) == lp.iter.id:
+        an = g.nodes_for(a_)
+        fa = facts[an[0].id] if an else frozenset()
+        if ('c', 'inherit_scopes', True) in fa:
+          per_mode[True] = a_.value
+        elif ('c', 'inherit_scopes', False) in fa:
+          per_mode[False] = a_.value
+        else:
+          per_mode[True] = per_mode[False] = a_.value
+    if set(per_mode) != {True, False}:
+      return False
+  elif not (isinstance(lp.target, ast.Name) and isinstance(lp.iter, ast.Call) and u(lp.iter.func) == 'range' and kd):
     return False
   try:
     k = ast.parse(kd, mode='eval').body
@@ -196,18 +212,26 @@ def index_form(ctx, f, g, facts, lp, kd, st, inst, con):
       except SyntaxError:
         return None
     return None
-  args = lp.iter.args
   modes = ((True, 'prefixes', (0, 0)), (False, 'strict', (1, 0)))
   if ('c', 'inherit_scopes', True) in fs:
     modes = modes[:1]        # the loop only runs in inheriting mode; strict mode is handled where it is read
   elif ('c', 'inherit_scopes', False) in fs:
     modes = modes[1:]
   for mode, name, want_lo in modes:
-    lo = (0, 0) if len(args) == 1 else lin(args[0], mode)
-    hi = lin(args[0] if len(args) == 1 else args[1], mode)
-    step = (0, 1) if len(args) < 3 else lin(args[2], mode)
+    it = per_mode[mode] if per_mode is not None else lp.iter
+    if isinstance(it, ast.Call) and u(it.func) == 'range' and it.args and not it.keywords:
+      args = it.args
+      lo = (0, 0) if len(args) == 1 else lin(args[0], mode)
+      hi = lin(args[0] if len(args) == 1 else args[1], mode)
+      step = (0, 1) if len(args) < 3 else lin(args[2], mode)
+    elif isinstance(it, (ast.List, ast.Tuple)) and len(it.elts) == 1:
+      lo = lin(it.elts[0], mode)      # a single length
+      hi = None if lo is None else (lo[0], lo[1] + 1)
+      step = (0, 1)
+    else:
+      lo = hi = step = None
     if lo is None or hi is None or step is None:
-      raise AnalysisError('_get_bindings: range bounds `%s` are not a form this rule can interpret' % u(lp.iter))
+      raise AnalysisError('_get_bindings: prefix lengths `%s` are not a form this rule can interpret' % u(it))
     ok = lo == want_lo and hi == (1, 1) and step == (0, 1)
     if mode:
       ctx.check(ok, 'C01.overlay', con,
